@@ -743,10 +743,19 @@ fn lex_source_into_buffer<'source: 'tokens, 'tokens: 'buffer, 'buffer>(
 							{
 								if first_error.is_none()
 								{
+									// The escaped character may take several bytes.
+									let mut end = location.end;
+									while source
+										.get(end as usize)
+										.is_some_and(|&b| b & 0xC0 == 0x80)
+									{
+										end += 1;
+									}
 									first_error = Some((
 										LexingError::InvalidEscapeSequence,
 										TokenLocation {
 											start: start_of_escape,
+											end,
 											..location
 										},
 									));
@@ -961,10 +970,19 @@ fn lex_source_into_buffer<'source: 'tokens, 'tokens: 'buffer, 'buffer>(
 							{
 								if first_error.is_none()
 								{
+									// The escaped character may take several bytes.
+									let mut end = location.end;
+									while source
+										.get(end as usize)
+										.is_some_and(|&b| b & 0xC0 == 0x80)
+									{
+										end += 1;
+									}
 									first_error = Some((
 										LexingError::InvalidEscapeSequence,
 										TokenLocation {
 											start: start_of_escape,
+											end,
 											..location
 										},
 									));
